@@ -105,26 +105,7 @@ pub open spec fn create_fully_granted(acps: Seq<AccessControlCreateResolved>, e:
 pub open spec fn strs_disjoint_from(s: Set<&str>, names: Set<String>) -> bool { forall|c: &str| #[trigger] s.contains(c) ==> !names.contains(c.as_key()) }
 //@extract apply_create_access
 
-// ---- which profiles are handed to the per-entry checks: resolve_access_conditions (access/mod.rs) ----
-pub struct OperationError { pub o: u8 }
-pub struct IdxMeta { pub o: u8 }
-pub struct ResolveFilterCacheReadTxn<'a> { pub o: &'a u8 }
-// Filter::resolve (filter.rs): substitutes the identity into the profile's target filter; an uninterpreted function of (filter, identity)
-pub uninterp spec fn resolved_filter(f: Filter<FilterValid>, ident: &Identity) -> Filter<FilterValidResolved>;
-impl Filter<FilterValid> {
-    #[verifier::external_body] pub fn resolve(&self, ev: &Identity, idxmeta: Option<&IdxMeta>, rsv_cache: Option<&mut ResolveFilterCacheReadTxn<'_>>) -> (r: Result<Filter<FilterValidResolved>, OperationError>)
-        ensures r matches Ok(f) ==> f == resolved_filter(*self, ev) { unimplemented!() }
-}
-// "an access control profile matching that user": the profile's receiver names a group the identity is a member of
-pub open spec fn receiver_matches_user(rcv: &AccessControlReceiver, ident: &Identity) -> bool {
-    rcv matches AccessControlReceiver::Group(g) && ident.memberof() matches Some(m) && !m.disjoint(g@)
-}
-pub open spec fn conditions_resolved(ident: &Identity, rcv: &AccessControlReceiver, tgt: &AccessControlTarget, rc: AccessControlReceiverCondition, tc: AccessControlTargetCondition) -> bool {
-    &&& (rc is GroupChecked ==> receiver_matches_user(rcv, ident))
-    &&& (rc is EntryManager ==> rcv is EntryManager)
-    &&& (tgt matches AccessControlTarget::Scope(f) && tc == AccessControlTargetCondition::Scope(resolved_filter(*f, ident)))
-}
-//@extract resolve_access_conditions
+//@include shims/access_resolve.rs
 
 // ---- create_allow_operation (access/mod.rs): the driver ----
 pub struct CreateEvent { pub ident: Identity }
